@@ -90,6 +90,14 @@ func ScopeMiddleware(provider godi.Provider, opts ...Option) echo.MiddlewareFunc
 		opt(cfg)
 	}
 
+	// A nil handler means the default one
+	if cfg.ErrorHandler == nil {
+		cfg.ErrorHandler = defaultConfig().ErrorHandler
+	}
+	if cfg.CloseErrorHandler == nil {
+		cfg.CloseErrorHandler = defaultConfig().CloseErrorHandler
+	}
+
 	return func(next echo.HandlerFunc) echo.HandlerFunc {
 		return func(c echo.Context) error {
 			scope, err := provider.CreateScope(c.Request().Context())
